@@ -22,6 +22,7 @@ class Events(ir.Client):
         self.f, self.prefix = f, prefix
         self.canon = vp.Canon(f)
         self.success = []
+        self.header = "header"
 
     def init(self, func):
         return ()
@@ -46,9 +47,9 @@ class Events(ir.Client):
             cn = c.get("callee") or ""
             if cn.startswith(self.prefix) or cn in ("memEq", "memIsZero"):
                 return st + (("T" if pol else "F", cn, self.canon(c["a"][0]) if c["a"] else ""),)
-        if c.get("k") == "Ref" and c.get("n") == "header":
+        if c.get("k") == "Ref" and c.get("n") == self.header:
             return st + (("hdr", "nonnull" if pol else "null", ""),)
-        if c.get("k") == "Bin" and c["op"] in ("==", "!=") and strip(c["x"]).get("n") == "header" and ir.int_val(c["y"]) == 0:
+        if c.get("k") == "Bin" and c["op"] in ("==", "!=") and strip(c["x"]).get("n") == self.header and ir.int_val(c["y"]) == 0:
             isnull = pol if c["op"] == "==" else not pol
             return st + (("hdr", "null" if isnull else "nonnull", ""),)
         return st
@@ -67,25 +68,36 @@ def _idx(ev, pred):
     return None
 
 
+def _roles(f, need):
+    """the wrappers' buffers by position (dest, src1 = protected data, count1, src2 = associated data, ..): renaming a
+    parameter does not change its role"""
+    ptr = [p_["n"] for p_ in f.params]
+    if len(ptr) < need:
+        raise AnalysisBroken("%s has fewer parameters than its documented signature" % f.name)
+    return ptr
+
+
 def check_unwrap(prog, res, fname, p):
     f = prog.funcs.get(fname)
     if f is None or f.body is None:
         raise AnalysisBroken("%s vanished" % fname)
+    names = _roles(f, 5)
+    DEST, SRC1, SRC2 = names[0], names[1], names[3]
     cl = Events(f, p)
     r = ir.run_paths(f, cl)
     if r.truncated or not cl.success:
         raise AnalysisBroken("%s: no success return reached" % fname)
     obligations = [
         ("associated data absorbed (%sStepI(src2)) before the tag check" % p,
-         lambda ev: _before(ev, lambda x: x[0] == p + "StepI" and x[1] == "src2", lambda x: x[0] == "T" and x[1] == p + "StepV")),
+         lambda ev: _before(ev, lambda x: x[0] == p + "StepI" and x[1] == SRC2, lambda x: x[0] == "T" and x[1] == p + "StepV")),
         ("received ciphertext absorbed (%sStepA(src1)) before the tag check" % p,
-         lambda ev: _before(ev, lambda x: x[0] == p + "StepA" and x[1] == "src1", lambda x: x[0] == "T" and x[1] == p + "StepV")),
+         lambda ev: _before(ev, lambda x: x[0] == p + "StepA" and x[1] == SRC1, lambda x: x[0] == "T" and x[1] == p + "StepV")),
         ("tag check accepted (%sStepV)" % p, lambda ev: _idx(ev, lambda x: x[0] == "T" and x[1] == p + "StepV") is not None),
         ("decryption (%sStepD) only after the accepted tag check" % p,
          lambda ev: _before(ev, lambda x: x[0] == "T" and x[1] == p + "StepV", lambda x: x[0] == p + "StepD") and
          not _before(ev, lambda x: x[0] == p + "StepD", lambda x: x[0] == "T" and x[1] == p + "StepV")),
         ("the decrypted buffer is the copy of the ciphertext (memMove(dest, src1) then %sStepD(dest))" % p,
-         lambda ev: _before(ev, lambda x: x[0] == "memMove" and x[1] == "dest" and x[2] == "src1", lambda x: x[0] == p + "StepD" and x[1] == "dest")),
+         lambda ev: _before(ev, lambda x: x[0] == "memMove" and x[1] == DEST and x[2] == SRC1, lambda x: x[0] == p + "StepD" and x[1] == DEST)),
     ]
     _report(res, "R01.1-unwrap-accepts-only-authenticated", f, cl, obligations)
 
@@ -94,14 +106,16 @@ def check_wrap(prog, res, fname, p):
     f = prog.funcs.get(fname)
     if f is None or f.body is None:
         raise AnalysisBroken("%s vanished" % fname)
+    names = _roles(f, 5)
+    DEST, SRC1, SRC2 = names[0], names[2], names[4]
     cl = Events(f, p)
     r = ir.run_paths(f, cl)
     if r.truncated or not cl.success:
         raise AnalysisBroken("%s: no success return reached" % fname)
     obligations = [
-        ("associated data absorbed (%sStepI(src2))" % p, lambda ev: _idx(ev, lambda x: x[0] == p + "StepI" and x[1] == "src2") is not None),
+        ("associated data absorbed (%sStepI(src2))" % p, lambda ev: _idx(ev, lambda x: x[0] == p + "StepI" and x[1] == SRC2) is not None),
         ("encrypt then authenticate the same buffer (%sStepE(dest) before %sStepA(dest))" % (p, p),
-         lambda ev: _before(ev, lambda x: x[0] == p + "StepE" and x[1] == "dest", lambda x: x[0] == p + "StepA" and x[1] == "dest")),
+         lambda ev: _before(ev, lambda x: x[0] == p + "StepE" and x[1] == DEST, lambda x: x[0] == p + "StepA" and x[1] == DEST)),
         ("tag produced last (%sStepG after %sStepA)" % (p, p),
          lambda ev: _before(ev, lambda x: x[0] == p + "StepA", lambda x: x[0] == p + "StepG")),
     ]
@@ -110,9 +124,10 @@ def check_wrap(prog, res, fname, p):
 
 def check_kwp_unwrap(prog, res):
     f = prog.funcs.get("beltKWPUnwrap")
-    if f is None or f.body is None or not any(p["n"] == "header" for p in f.params):
-        raise AnalysisBroken("beltKWPUnwrap (with a `header` parameter) vanished")
-    cl = Events(f, "beltWBL")        # belt.h: beltKWPStart/StepD2 are the wide-block functions
+    if f is None or f.body is None or len(f.params) < 4:
+        raise AnalysisBroken("beltKWPUnwrap vanished")
+    cl = Events(f, "beltWBL")
+    cl.header = f.params[3]["n"]        # belt.h: beltKWPStart/StepD2 are the wide-block functions
     r = ir.run_paths(f, cl)
     if r.truncated or not cl.success:
         raise AnalysisBroken("beltKWPUnwrap: no success return reached")
@@ -164,7 +179,7 @@ def run(tier, seed=0):
         "selects. The Step functions themselves (block cipher, GF(2^128) accumulator, counters) compute values and are "
         "declined, as is every `octet-for-octet` clause.")
     res.assumptions = COMMON_ASSUMPTIONS + [
-        "buffers are identified by canonical parameter names (src1 = data to protect / ciphertext, src2 = associated data, dest)",
+        "buffers are identified by their parameter position in the documented signatures (dest, data, associated data, header)",
         "what the Step functions compute is not decided",
     ]
     return res
